@@ -152,6 +152,29 @@ fn part_b(a: &Args, out: &mut Out, rng: &mut Rng) {
                 if is_inverse { step_is_inverse = true; let (ptt, pn, _) = prev.clone().unwrap(); want_tt = ptt; want_n = pn; } else { want_tt = cnf_tt(cur_n, &rest); want_n = cur_n; }
                 label = format!("remove {:?}", c);
                 ops = vec![(c, ClauseApplication::Remove)];
+            } else if kind < 53 && stored.len() >= 2 {
+                // one edit that removes two different stored clauses
+                let c1 = rng.pick(&stored).clone();
+                let c2 = rng.pick(&stored).clone();
+                let (s1, s2): (Clause, Clause) = (c1.iter().copied().collect(), c2.iter().copied().collect());
+                if s1 == s2 { continue; }
+                let rest: Vec<Clause> = stored.iter().map(|x| x.iter().copied().collect::<Clause>()).filter(|x| *x != s1 && *x != s2).collect();
+                want_tt = cnf_tt(cur_n, &rest); want_n = cur_n;
+                label = format!("remove {:?} and {:?} in one edit", c1, c2);
+                ops = vec![(c1, ClauseApplication::Remove), (c2, ClauseApplication::Remove)];
+            } else if kind < 47 && !stored.is_empty() {
+                // one edit that removes a stored clause and adds a clause (a unit clause half of the time)
+                let c = rng.pick(&stored).clone();
+                let cset: Clause = c.iter().copied().collect();
+                let rest: Vec<Clause> = stored.iter().map(|x| x.iter().copied().collect::<Clause>()).filter(|x| *x != cset).collect();
+                let addc: Clause = if rng.chance(0.5) { rand_clause(rng, cur_n, 1) } else { rand_clause(rng, cur_n, 3) };
+                if stored.iter().any(|x| x.iter().copied().collect::<Clause>() == addc) { continue; }
+                let t = and_clause(&cnf_tt(cur_n, &rest), &addc.iter().copied().collect::<Vec<i32>>());
+                if t.count() == 0 { continue; }
+                want_tt = t; want_n = cur_n;
+                let addv: Vec<i32> = addc.into_iter().collect();
+                label = format!("remove {:?} and add {:?} in one edit", c, addv);
+                ops = if rng.chance(0.5) { vec![(c, ClauseApplication::Remove), (addv, ClauseApplication::Add)] } else { vec![(addv, ClauseApplication::Add), (c, ClauseApplication::Remove)] };
             } else {
                 // add 1..2 clauses, sometimes with a new variable, a tautology or a duplicate
                 let k = 1 + rng.below(2);
@@ -202,9 +225,41 @@ fn part_b(a: &Args, out: &mut Out, rng: &mut Rng) {
     out.count("compiler_calls", refcomp::compile_calls());
 }
 
+/// the inputs named in known_findings.json run first on every run, so that an open finding is reported
+/// (as KNOWN-FINDING) for as long as it reproduces and disappears when it is repaired
+fn pinned(a: &Args, out: &mut Out, rng: &mut Rng) {
+    refcomp::install();
+    let cases: Vec<(u32, Vec<Vec<i32>>, Vec<i32>)> = vec![
+        (6, vec![vec![-3, -1], vec![-5, 2, 4], vec![-1], vec![-5, 1, 2, 3], vec![-5, -3, -1, 6], vec![-2, -1], vec![-5, 1, 6], vec![-4, -3], vec![-2, 5], vec![-3], vec![6]], vec![2, -5]),
+    ];
+    for (n, cls, rmv) in cases {
+        let cls: Vec<Clause> = cls.into_iter().map(|c| c.into_iter().collect()).collect();
+        let text = cnf_text(n, &cls);
+        let p = format!("{}/edit_pinned.cnf", a.out);
+        std::fs::write(&p, &text).unwrap();
+        let mut d = match guarded(|| Ddnnf::from_file(std::path::Path::new(&p), None)) { Ok(d) => d, Err(_) => continue };
+        let rset: Clause = rmv.iter().copied().collect();
+        let rest: Vec<Clause> = cls.iter().filter(|c| **c != rset).cloned().collect();
+        let want = cnf_tt(n, &rest);
+        let h = format!("remove {:?}", rmv);
+        out.eval(Some(format!("{text}|{h}")));
+        match apply(&mut d, vec![(rmv.clone(), ClauseApplication::Remove)]) {
+            Err(e) => out.fail("edit-panic", &text, &h, &format!("panic: {e}"), "edited model"),
+            Ok(s) => {
+                out.count(&format!("pinned_strategy_{}", strategy_name(s)), 1);
+                let mut r = rng.fork();
+                if let Some((req, got, wanted)) = battery(&mut d, &want, &mut r).first() {
+                    out.fail(if s == IncrementalStrategy::SubDAGReplacement { "query-after-subdag-replacement" } else { "query-after-edit" }, &text, &format!("{h} [{}] ; {req}", strategy_name(s)), got, wanted);
+                }
+            }
+        }
+    }
+}
+
 pub fn c11(a: &Args) {
     let mut rng = Rng::new(a.seed);
     let mut out = Out::new(&a.out);
+    pinned(a, &mut out, &mut rng);
     part_a(a, &mut out, &mut rng);
     part_b(a, &mut out, &mut rng);
     out.finish("A: every model of the C01 space x unit clauses (quick: 3 sampled literals per model, thorough: every literal) plus unit clauses over new features n+1..n+3, a second unit clause on top for a third of them; after each edit the C01-C06 battery (feature count, counts, SAT, core, enumeration set, sampling validity) against the truth table of `previous formula AND clause`, and the edited node array compared exactly with the Lean model of add_unit_clause + rebuild. B: random CNFs (2..10 variables) loaded through the real loader with the self-validated reference compiler behind the hook x sequences of 1..4 edits (add 1-2 clauses of width 1..4 incl. tautologies, duplicates of stored clauses, clauses over new variables; remove a clause of the stored CNF; the inverse of the latest edit), battery after each edit against the truth table of the edited clause set");
@@ -215,12 +270,19 @@ pub fn c11(a: &Args) {
 pub fn probe(path: &str) {
     refcomp::install();
     let text = std::fs::read_to_string(path).unwrap();
-    let cnf: String = text.lines().filter(|l| !l.starts_with('+') && !l.starts_with('-') || l.trim_start_matches('-').trim_start().chars().next().map(|c| c.is_ascii_digit()).unwrap_or(false) && l.trim_end().ends_with(" 0")).map(|l| format!("{l}\n")).collect();
+    let cnf: String = text.lines().filter(|l| !l.starts_with('*')).filter(|l| !l.starts_with('+') && !l.starts_with('-') || l.trim_start_matches('-').trim_start().chars().next().map(|c| c.is_ascii_digit()).unwrap_or(false) && l.trim_end().ends_with(" 0")).map(|l| format!("{l}\n")).collect();
     let p = format!("{path}.cnf");
     std::fs::write(&p, &cnf).unwrap();
     let mut d = Ddnnf::from_file(std::path::Path::new(&p), None);
     println!("loaded: n={} count={} stored={:?}", d.number_of_variables, d.rc(), d.inter_graph.cnf_clauses);
     for l in text.lines() {
+        if let Some(r) = l.strip_prefix("* ") {
+            // mixed edit: `* a 1 / r 2 3`
+            let ops: Vec<(Vec<i32>, ClauseApplication)> = r.split('/').map(|c| { let c = c.trim(); let app = if c.starts_with('a') { ClauseApplication::Add } else { ClauseApplication::Remove }; (c[1..].split_whitespace().map(|x| x.parse().unwrap()).collect(), app) }).collect();
+            let s = apply(&mut d, ops.clone());
+            println!("{:?} -> {:?}: n={} count={} stored={:?}", ops, s.map(strategy_name), d.number_of_variables, d.rc(), d.inter_graph.cnf_clauses);
+            continue;
+        }
         let (app, rest) = if let Some(r) = l.strip_prefix("+ ") { (ClauseApplication::Add, r) } else if let Some(r) = l.strip_prefix("- ") { if l.trim_end().ends_with(" 0") { continue; } (ClauseApplication::Remove, r) } else { continue };
         let ops: Vec<(Vec<i32>, ClauseApplication)> = rest.split('/').map(|c| (c.split_whitespace().map(|x| x.parse().unwrap()).collect(), app)).collect();
         let s = apply(&mut d, ops.clone());
